@@ -361,7 +361,8 @@ def prov_node_attributes(repo, tier="quick"):
     for n in cfg.nodes:
         if n.kind == "stmt":
             for sub in ast.walk(n.ast):
-                if isinstance(sub, ast.Call) and isinstance(sub.func, ast.Attribute) and sub.func.attr == "append" and "recipes" in ast.unparse(sub.func.value):
+                if isinstance(sub, ast.Call) and isinstance(sub.func, ast.Attribute) and sub.func.attr == "append" and isinstance(sub.func.value, ast.Subscript) and \
+                        len(sub.args) == 1 and isinstance(sub.args[0], ast.Tuple) and len(sub.args[0].elts) == 3:
                     ct = fl.canon(sub, n.id)
                     entry = ct[3][0] if ct[3] else None
                     ok = entry is not None and entry[0] == "tuple" and len(entry[1]) == 3 and entry[1][1] == P
@@ -529,7 +530,8 @@ def trip_multiplier(repo, tier="quick"):
     for n in cfg.nodes:
         if n.kind == "stmt":
             for sub in ast.walk(n.ast):
-                if isinstance(sub, ast.Call) and isinstance(sub.func, ast.Attribute) and sub.func.attr == "append" and "recipes" in ast.unparse(sub.func.value):
+                if isinstance(sub, ast.Call) and isinstance(sub.func, ast.Attribute) and sub.func.attr == "append" and isinstance(sub.func.value, ast.Subscript) and \
+                        len(sub.args) == 1 and isinstance(sub.args[0], ast.Tuple) and len(sub.args[0].elts) == 3:
                     ct = fl.canon(sub, n.id)
                     entry = ct[3][0] if ct[3] else None
                     okr = entry is not None and entry[0] == "tuple" and entry[1] and entry[1][0] == count
